@@ -483,3 +483,121 @@ def c10_no_adjacent_duplicates(world, rec, acc, ctx):
                     'same-message-posted-twice-in-a-row',
                     'PR #%d: robot comment %d repeats comment %d: %r'
                     % (pr_id, i, i - 1, t1[:80]), witness(world, rec))
+
+
+# ---------------------------------------------------------------------------
+def expected_integration_names(snap, states=('OPEN', 'DECLINED', 'MERGED')):
+    """{w/ name: (parent pr, target)} for every user PR, from the harness's
+    own cascade computation"""
+    out = {}
+    names = list(snap.refs)
+    for p in snap.prs:
+        if p['author'] == ROBOT or p['state'] not in states:
+            continue
+        tgts = oracle.targets(names, p['dst'])
+        for t in tgts[1:]:
+            out.setdefault(oracle.wname(oracle.version_of(t), p['src']),
+                           []).append((p, t))
+    return out
+
+
+def c19_one_to_one(world, rec, acc, ctx):
+    """after every job: integration branches / PRs are one-to-one with their
+    parent; decline cleans exactly the parent's; merge removes them."""
+    b, a = rec['before'], rec['after']
+    acc.evals += 1
+    exp = expected_integration_names(a)
+    kids = [p for p in a.prs if p['author'] == ROBOT and
+            p['state'] == 'OPEN']
+    wrefs = [n for n in a.refs if n.startswith('w/')]
+    if kids or wrefs:
+        acc.count('c19_states_with_integration_data')
+        acc.nontrivial('%s|%s|kids=%d|w=%d|%s:%s' % (
+            world.layout_name, world.queue_mode, len(kids), len(wrefs),
+            rec['kind'], rec['status']))
+    wit = None
+    seen = {}
+    for k in kids:
+        key = (k['src'], k['dst'])
+        if key in seen:
+            wit = wit or witness(world, rec)
+            acc.violation('duplicate-open-integration-pull-request',
+                          'PRs #%d and #%d are both open for %s -> %s'
+                          % (seen[key], k['id'], k['src'], k['dst']), wit)
+        seen[key] = k['id']
+        owners = exp.get(k['src'], [])
+        match = [(p, t) for (p, t) in owners if t == k['dst']]
+        if not match:
+            # only data created by this job is held against it
+            if b.pr(k['id']) is None:
+                wit = wit or witness(world, rec)
+                acc.violation(
+                    'integration-pull-request-without-parent-target',
+                    'PR #%d %s -> %s created, but no user PR has that '
+                    'integration branch for that target' % (
+                        k['id'], k['src'], k['dst']), wit)
+            continue
+        parent = match[0][0]
+        want = 'INTEGRATION [PR#%s > %s] %s' % (parent['id'], k['dst'],
+                                                parent['title'])
+        acc.count('c19_child_titles_checked')
+        if k['title'] != want and b.pr(k['id']) is None:
+            wit = wit or witness(world, rec)
+            acc.violation('integration-pull-request-wrong-title',
+                          'PR #%d title %r, expected %r' % (
+                              k['id'], k['title'], want), wit)
+    for n in wrefs:
+        if n not in exp and n not in b.refs:
+            wit = wit or witness(world, rec)
+            acc.violation('integration-branch-without-parent-target',
+                          '%s created but corresponds to no (pull request, '
+                          'target beyond the first)' % n, wit)
+    # decline: the evaluated parent was DECLINED before the job
+    pr = evaluated_pr(world, rec)
+    if pr is not None and pr['state'] == 'DECLINED' and \
+            rec['status'] in ('PullRequestDeclined', 'NothingToDo'):
+        acc.count('c19_decline_cleanups_checked')
+        mine = {oracle.wname(oracle.version_of(t), pr['src'])
+                for t in oracle.targets(list(b.refs), pr['dst'])[1:]}
+        # other open PRs from the same source keep their data: don't-care
+        shared = [q for q in b.prs if q['src'] == pr['src'] and
+                  q['id'] != pr['id'] and q['author'] != ROBOT and
+                  q['state'] == 'OPEN']
+        if not shared:
+            left = sorted(n for n in a.refs if n in mine)
+            open_kids = [k['id'] for k in kids if k['src'] in mine]
+            if left or open_kids:
+                wit = wit or witness(world, rec)
+                acc.violation(
+                    'decline-leaves-integration-data',
+                    'PR #%d declined and evaluated (%s): branches %s and '
+                    'integration PRs %s remain' % (pr['id'], rec['status'],
+                                                   left, open_kids), wit)
+        for n in set(b.refs) - set(a.refs):
+            if n.startswith('w/') and n not in mine:
+                wit = wit or witness(world, rec)
+                acc.violation('decline-deletes-foreign-integration-branch',
+                              'evaluating declined PR #%d deleted %s'
+                              % (pr['id'], n), wit)
+        for q in a.prs:
+            bq = b.pr(q['id'])
+            if bq and bq['state'] == 'OPEN' and q['state'] == 'DECLINED' \
+                    and q['src'] not in mine:
+                wit = wit or witness(world, rec)
+                acc.violation('decline-declines-foreign-pull-request',
+                              'evaluating declined PR #%d declined PR #%d '
+                              '(%s)' % (pr['id'], q['id'], q['src']), wit)
+    # merge: integration branches of a PR merged by this job are gone
+    for p in newly_merged(rec):
+        shared = [q for q in a.prs if q['src'] == p['src'] and
+                  q['id'] != p['id'] and q['author'] != ROBOT]
+        if shared:
+            continue
+        acc.count('c19_merge_cleanups_checked')
+        left = [n for n in a.refs if n.startswith('w/') and
+                n.endswith('/' + p['src'])]
+        if left:
+            wit = wit or witness(world, rec)
+            acc.violation('merge-leaves-integration-branches',
+                          'PR #%d merged by %s(%s) but %s remain' % (
+                              p['id'], rec['kind'], rec['arg'], left), wit)
